@@ -499,6 +499,9 @@ func genFaultCall(t *rapid.T, w *World) FaultCall {
 		// failed multi-batch operation is the F7 family)
 		c.Flush = rapid.SampledFrom([]int{150, 300}).Draw(t, "fflush")
 	}
+	if c.Kind == "import" && c.N >= 1<<20 {
+		c.Kind = "export" // the importer allocates a nonce table of size version+1
+	}
 	nm := rapid.IntRange(0, 3).Draw(t, "nmulti")
 	for i := 0; i < nm; i++ {
 		c.Multi = append(c.Multi, rapid.SliceOfN(rapid.IntRange(0, 400), 2, 3).Draw(t, "multi"))
